@@ -322,4 +322,106 @@ def stackReplayable : List String → Bool → Bool
 /-- one row of the translator's table: (file:qualname, decorators OUTERMOST first, one-shot) -/
 def entryReplayable (e : String × List String × Bool) : Bool := stackReplayable e.2.1.reverse e.2.2
 
+/-! ## dict key completions: `jedi/api/strings.py`
+
+`Completion.complete()` puts the completions of `complete_dict` in front of its result without sorting
+them again. `_completions_for_dicts` gets the inferred values as a `ValueSet` (a frozenset hashed by
+object identity): the order in which the dicts arrive is arbitrary.
+
+A key is given by `r = repr(dict_key)` (code points): the sort key is `repr`, `_create_repr_string`
+reads `repr(dict_key)` and `isinstance(dict_key, (str, bytes))`, and for the safe values
+(`str`, `bytes`, numbers, `bool`, `None`) the latter is a function of the repr: it starts with a quote,
+or with `b` and a quote. -/
+
+abbrev Str := List Nat
+
+/-- `\w` of the regex in `_get_string_prefix_and_quote` on ASCII and the Latin-1 letters (what stands
+there in practice is a string prefix: `r`, `b`, `f`, `u`, `rb` …) -/
+def isWordChar (c : Nat) : Bool :=
+  (48 ≤ c && c ≤ 57) || (65 ≤ c && c ≤ 90) || (97 ≤ c && c ≤ 122) || c == 95 ||
+  c == 170 || c == 181 || c == 186 || (192 ≤ c && c ≤ 255 && c != 215 && c != 247)
+
+/-- `_get_string_prefix_and_quote`: `re.match(r'(\w*)("""|\'{3}|"|\')', string)` -> (prefix, quote);
+`none` = no match = `(None, None)`. (`\w*` is greedy and a quote is no word character: no backtracking) -/
+def prefixAndQuote (s : Str) : Option (Str × Str) :=
+  let p := s.takeWhile isWordChar
+  match s.dropWhile isWordChar with
+  | 34 :: 34 :: 34 :: _ => some (p, [34, 34, 34])
+  | 39 :: 39 :: 39 :: _ => some (p, [39, 39, 39])
+  | 34 :: _ => some (p, [34])
+  | 39 :: _ => some (p, [39])
+  | _ => none
+
+/-- `isinstance(dict_key, (str, bytes))`, read off `repr(dict_key)` -/
+def isTextRepr : Str → Bool
+  | 39 :: _ => true
+  | 34 :: _ => true
+  | 98 :: 39 :: _ => true
+  | 98 :: 34 :: _ => true
+  | _ => false
+
+/-- `_create_repr_string(literal_string, dict_key)` with `r = repr(dict_key)` -/
+def createReprString (lit r : Str) : Str :=
+  if !isTextRepr r || lit.isEmpty then r            -- not isinstance(...) or not literal_string
+  else match prefixAndQuote lit with
+    | none => r                                      -- quote is None
+    | some (p, q) =>
+      if q == r.take 1 then p ++ r                   -- quote == r[0]  (r is not empty here)
+      else p ++ q ++ (r.drop 1).dropLast ++ q        -- prefix + quote + r[1:-1] + quote
+
+/-- one inferred value as `_get_python_keys` sees it -/
+structure DictVal where
+  /-- `dct.array_type == 'dict'` -/
+  isDict : Bool
+  /-- `dct.get_key_values()`, each as `repr(key.get_safe_value(default=_sentinel))`; `none` = `_sentinel` -/
+  keys : List (Option Str)
+deriving DecidableEq, Repr
+
+/-- WHERE `jedi/api/strings.py` sorts the keys (read from the source by the translator) -/
+structure DictCfg where
+  /-- `_completions_for_dicts` iterates over `sorted(_get_python_keys(dicts), key=repr)` -/
+  globalSort : Bool
+  /-- `_get_python_keys` hands out the keys of each dict as `sorted(keys, key=repr)` -/
+  perDictSort : Bool
+deriving DecidableEq, Repr
+
+/-- comparison of two `repr` strings: Python compares `str` by code points, lexicographically -/
+def reprLE (a b : Str) : Bool := decide (a ≤ b)
+
+/-- insertion into a sorted list of `repr`s -/
+def insertRepr (a : Str) : List Str → List Str
+  | [] => [a]
+  | b :: l => if reprLE a b then a :: b :: l else b :: insertRepr a l
+
+/-- `sorted(keys, key=repr)`. A key is modelled by its `repr`, so elements with equal sort keys are
+equal and the stability of Python's sort cannot be observed: every sorting algorithm returns the same
+list (`sortByRepr_perm_eq`); insertion sort is structurally recursive, so the kernel can run it -/
+def sortByRepr (l : List Str) : List Str := l.foldr insertRepr []
+
+/-- `_get_python_keys(dicts)`: the generator, in the order in which the dicts are iterated -/
+def getPythonKeys (cfg : DictCfg) (dicts : List DictVal) : List Str :=
+  dicts.flatMap fun d =>
+    if d.isDict then
+      let ks := d.keys.filterMap id                  -- `if dict_key is not _sentinel`
+      if cfg.perDictSort then sortByRepr ks else ks
+    else []
+
+/-- `dict_key_str[:-len(cut_end_quote) or None]` -/
+def cutEnd (cut s : Str) : Str := if cut.isEmpty then s else s.take (s.length - cut.length)
+
+/-- the loop of `_completions_for_dicts`; `seen` is the set of the same name. Result: the names of
+the completions, in the order in which they are yielded -/
+def completionLoop (lit cut : Str) : List Str → List Str → List Str
+  | _, [] => []
+  | seen, r :: rest =>
+    let s := createReprString lit r
+    if lit.isPrefixOf s && !seen.contains s then
+      cutEnd cut s :: completionLoop lit cut (s :: seen) rest
+    else completionLoop lit cut seen rest
+
+/-- `_completions_for_dicts(inference_state, dicts, literal_string, cut_end_quote, fuzzy)` -/
+def completionsForDicts (cfg : DictCfg) (lit cut : Str) (dicts : List DictVal) : List Str :=
+  let ks := getPythonKeys cfg dicts
+  completionLoop lit cut [] (if cfg.globalSort then sortByRepr ks else ks)
+
 end JediModel.Determinism
